@@ -187,16 +187,150 @@ Proof.
   - split; [constructor | intro r; split; [discriminate | tauto]].
 Qed.
 
-Ltac gsolve :=
-  intros; unfold pre_index, in_first in *; upd_cases; simpl in *;
-  try tauto; try congruence; try lia;
-  try solve [eauto 3];
-  try solve [intuition (try congruence; eauto 3)].
+Ltac enter I H := destruct I; step_cases H; unfold touch, set_o, set_w; simpl.
+Ltac lists :=
+  repeat match goal with
+  | H : In _ (remove_nat _ _) |- _ => apply in_remove_nat in H; destruct H
+  | H : In _ (_ :: _) |- _ => destruct H
+  | H : In _ (_ ++ [_]) |- _ => apply in_app_iff in H; destruct H as [H|[H|[]]]
+  | H : In _ [] |- _ => destruct H
+  end.
+Ltac light := intros; unfold pre_index, in_first in *; upd_cases; simpl in *; lists; subst;
+  try tauto; try congruence; try lia; eauto 3.
 
-Lemma ginv_step : forall lim s l s', GInv s -> gstep lim s l = Some s' -> GInv s'.
+Lemma st_open : forall lim s l s', GInv s -> gstep lim s l = Some s' ->
+  is_on s' = true -> 0 < nblock s' -> opened s' = true.
 Proof.
-  intros lim s l s' I H. destruct I.
-  step_cases H; unfold touch, set_o, set_w; constructor; simpl.
-  all: try solve [gsolve].
-  all: match goal with |- ?g => idtac "LEFT" end.
+  intros lim s l s' I H. enter I H.
+  all: try solve [light].
+  all: idtac "LEFT open".
 Abort.
+
+Lemma st_nb_w : forall lim s l s', GInv s -> gstep lim s l = Some s' ->
+  forall r, won (wst s' r) = true -> 0 < nblock s'.
+Proof.
+  intros lim s l s' I H. enter I H.
+  all: try solve [light].
+  all: idtac "LEFT nb_w".
+Abort.
+
+Lemma st_nb_o : forall lim s l s', GInv s -> gstep lim s l = Some s' ->
+  forall o, ph (ost s' o) <> PNew -> won (wst s' (kind (ost s' o))) = true.
+Proof.
+  intros lim s l s' I H. enter I H.
+  all: try solve [light].
+  all: idtac "LEFT nb_o".
+Abort.
+
+Lemma st_dis : forall lim s l s', GInv s -> gstep lim s l = Some s' ->
+  forall r, won (wst s' r) = true -> armed (wst s' r) = false -> opened s' = true.
+Proof.
+  intros lim s l s' I H. enter I H.
+  all: try solve [light].
+  all: idtac "LEFT dis".
+Abort.
+
+Lemma st_ung : forall lim s l s', GInv s -> gstep lim s l = Some s' ->
+  forall o, ph (ost s' o) <> PNew -> gated (ost s' o) = false -> opened s' = true.
+Proof.
+  intros lim s l s' I H. enter I H.
+  all: try solve [light].
+  all: idtac "LEFT ung".
+Abort.
+
+Lemma st_rt : forall lim s l s', GInv s -> gstep lim s l = Some s' ->
+  forall r, won (wst s' r) = true -> windexed (wst s' r) = true -> listed s' r = false -> In r (rtog s').
+Proof.
+  intros lim s l s' I H. enter I H.
+  all: try solve [light].
+  all: idtac "LEFT rt".
+Abort.
+
+Lemma st_early : forall lim s l s', GInv s -> gstep lim s l = Some s' ->
+  forall o, ph (ost s' o) <> PNew -> early (ost s' o) = true -> mk (ost s' o) = true.
+Proof.
+  intros lim s l s' I H. enter I H.
+  all: try solve [light].
+  all: idtac "LEFT early".
+Abort.
+
+Lemma st_ot : forall lim s l s', GInv s -> gstep lim s l = Some s' ->
+  forall o, mk (ost s' o) = true -> pre_index (ph (ost s' o)) -> In o (otog s').
+Proof.
+  intros lim s l s' I H. enter I H.
+  all: try solve [light].
+  all: idtac "LEFT ot".
+Abort.
+
+Lemma st_busy : forall lim s l s', GInv s -> gstep lim s l = Some s' ->
+  forall r o, busy (wst s' r) = Some o -> in_first (ph (ost s' o)) /\ kind (ost s' o) = r.
+Proof.
+  intros lim s l s' I H. enter I H.
+  all: try solve [light].
+  all: idtac "LEFT busy".
+Abort.
+
+Lemma st_chk : forall lim s l s', GInv s -> gstep lim s l = Some s' ->
+  forall o, in_first (ph (ost s' o)) -> busy (wst s' (kind (ost s' o))) = Some o.
+Proof.
+  intros lim s l s' I H. enter I H.
+  all: try solve [light].
+  all: idtac "LEFT chk".
+Abort.
+
+Lemma st_chk_e : forall lim s l s', GInv s -> gstep lim s l = Some s' ->
+  forall o, ph (ost s' o) = PChecked -> early (ost s' o) = true -> listed s' (kind (ost s' o)) = false /\ windexed (wst s' (kind (ost s' o))) = true.
+Proof.
+  intros lim s l s' I H. enter I H.
+  all: try solve [light].
+  all: idtac "LEFT chk_e".
+Abort.
+
+Lemma st_k1 : forall lim s l s', GInv s -> gstep lim s l = Some s' ->
+  forall o, In o (otog s') -> pre_index (ph (ost s' o)).
+Proof.
+  intros lim s l s' I H. enter I H.
+  all: try solve [light].
+  all: idtac "LEFT k1".
+Abort.
+
+Lemma st_k3 : forall lim s l s', GInv s -> gstep lim s l = Some s' ->
+  forall r, In r (rtog s') -> won (wst s' r) = true.
+Proof.
+  intros lim s l s' I H. enter I H.
+  all: try solve [light].
+  all: idtac "LEFT k3".
+Abort.
+
+Lemma st_k4 : forall lim s l s', GInv s -> gstep lim s l = Some s' ->
+  forall r, nrun s' r + List.length (pend s' r) <= nseen s' r.
+Proof.
+  intros lim s l s' I H. enter I H.
+  all: try solve [light].
+  all: idtac "LEFT k4".
+Abort.
+
+Lemma st_k5 : forall lim s l s', GInv s -> gstep lim s l = Some s' ->
+  forall r o, In o (pend s' r) -> ph (ost s' o) = PQueued /\ kind (ost s' o) = r.
+Proof.
+  intros lim s l s' I H. enter I H.
+  all: try solve [light].
+  all: idtac "LEFT k5".
+Abort.
+
+Lemma st_k5q : forall lim s l s', GInv s -> gstep lim s l = Some s' ->
+  forall o, ph (ost s' o) = PQueued -> In o (pend s' (kind (ost s' o))).
+Proof.
+  intros lim s l s' I H. enter I H.
+  all: try solve [light].
+  all: idtac "LEFT k5q".
+Abort.
+
+Lemma st_kn : forall lim s l s', GInv s -> gstep lim s l = Some s' ->
+  NoDup (kinds s') /\ forall r, won (wst s' r) = true <-> In r (kinds s').
+Proof.
+  intros lim s l s' I H. enter I H.
+  all: try solve [light].
+  all: idtac "LEFT kn".
+Abort.
+
